@@ -129,6 +129,13 @@ func dataflowCase(c *Ctx, focus string) {
 	}
 	prog := Generate(c.Plan, gcfg)
 	narrow, nested := false, false
+	if AdvOn && c.Plan.Draw(8) == 0 {
+		// fork ids of two parts: a pipeline holding a map call, itself map-called
+		// over a typed map with adversarial keys produced at run time
+		prog = templateNestedProg(c.Plan)
+		nested = true
+		c.Res.Probes["template-nested-map-program"]++
+	}
 	if !AdvOn {
 		switch c.Plan.Draw(16) {
 		case 0, 1:
